@@ -137,6 +137,8 @@ type Fleet struct {
 	// that committed in exactly that window and therefore reused the
 	// transaction id of the empty LS transaction (known finding).
 	RaceKeys map[string]bool
+	// RaceTxn marks node/txnid of such application transactions.
+	RaceTxn map[string]bool
 
 	Stats FleetStats
 }
@@ -162,6 +164,10 @@ func (f *Fleet) Violate(v Violation) {
 
 func (f *Fleet) Failed() bool { return len(f.Violations) > 0 }
 
+// InRaceWindow reports if the node's sync loop is parked between the end of
+// an empty LS write transaction and the following env.Info().
+func (f *Fleet) InRaceWindow(n *Node) bool { return f.emptyTxn[n] && n.Running }
+
 func (f *Fleet) NodeByName(name string) *Node {
 	for _, n := range f.Nodes {
 		if n.Name == name {
@@ -184,6 +190,7 @@ func NewFleet(sim *Sim, root string, cfg FleetCfg) (*Fleet, error) {
 		ShadowTaint: map[string]bool{},
 		emptyTxn:    map[*Node]bool{},
 		RaceKeys:    map[string]bool{},
+		RaceTxn:     map[string]bool{},
 		appLeft:     cfg.AppTxns,
 		StopOnViol:  true,
 	}
@@ -333,6 +340,7 @@ func (f *Fleet) AppCommit(n *Node, ops []AppOp) Actor {
 		for _, op := range ops {
 			f.RaceKeys[n.Name+"/"+op.DBI+"/"+string(op.Key)] = true
 		}
+		f.RaceTxn[fmt.Sprintf("%s/%d", n.Name, txn)] = true
 		f.Sim.Probe("txnid-reuse-window")
 	}
 	f.Stats.AppTxns++
@@ -586,6 +594,8 @@ func (f *Fleet) RunWorkload() {
 		f.lastNode = next
 		f.reapCancelled()
 	}
+	f.Sim.Quiesce()
+	f.observe(actor)
 }
 
 // reapCancelled notices nodes whose Sync returned (cancel or error).
